@@ -433,9 +433,17 @@ def inline_init_literals(tree, ref):
         if not init:
             continue
         cand = {}
+        aliases = {}
         for st in init[0].body:
             if isinstance(st, ast.Assign) and len(st.targets) == 1 and isinstance(st.targets[0], ast.Attribute) and isinstance(st.targets[0].value, ast.Name) and \
                     st.targets[0].value.id == 'self' and st.targets[0].attr not in want and st.targets[0].attr.startswith('_'):
+                # ... or a bound method of the object itself kept under a second name (`self._cb = self._on_packet`): bound methods of
+                # one object compare equal, so registering / removing either spelling is the same
+                methods = {m_.name for m_ in c.body if isinstance(m_, ast.FunctionDef) and not m_.decorator_list}
+                if isinstance(st.value, ast.Attribute) and isinstance(st.value.value, ast.Name) and st.value.value.id == 'self' and st.value.attr in methods:
+                    cand[st.targets[0].attr] = st
+                    aliases[st.targets[0].attr] = st.value
+                    continue
                 try:
                     v = _literal(st.value, {})
                 except ValueError:
@@ -458,6 +466,8 @@ def inline_init_literals(tree, ref):
             def visit_Attribute(self, node):
                 self.generic_visit(node)
                 if isinstance(node.ctx, ast.Load) and node.attr in cand and isinstance(node.value, ast.Name) and node.value.id == 'self':
+                    if node.attr in aliases:
+                        return ast.copy_location(copy.deepcopy(aliases[node.attr]), node)
                     return _const_node(_literal(cand[node.attr].value, {}), node)
                 return node
         for st in c.body:
@@ -1013,6 +1023,27 @@ def undo_iteration_tools(tree, ref):
                             del block[i - 1]
                         total += 1
                         break
+    if total:
+        ast.fix_missing_locations(tree)
+    return total
+
+
+def extend_as_iadd(tree, ref):
+    """`X.extend(Y)` as a statement on a local list X, where the reference function has no such call  ->  `X += Y`  (for a list the two
+    are the same operation); `X.append(e)` likewise -> `X += [e]` only when the reference spells it that way (a tuple / list display)."""
+    total = 0
+    ref_calls = ref.get('calls') or {}
+    for q, fn in functions(tree):
+        rc = ref_calls.get(q, {})
+        lists = {t.id for n in _own_walk(fn) if isinstance(n, ast.Assign) and isinstance(n.value, (ast.List, ast.ListComp)) or
+                 (isinstance(n, ast.Assign) and isinstance(n.value, ast.Call) and _txt(n.value.func) == 'list') for t in n.targets if isinstance(t, ast.Name)}
+        for block in _blocks(fn):
+            for i, st in enumerate(block):
+                if isinstance(st, ast.Expr) and isinstance(st.value, ast.Call) and isinstance(st.value.func, ast.Attribute) and st.value.func.attr == 'extend' and \
+                        isinstance(st.value.func.value, ast.Name) and st.value.func.value.id in lists and len(st.value.args) == 1 and not st.value.keywords and \
+                        rc.get(_txt(st.value.func), 0) == 0 and isinstance(st.value.args[0], (ast.Name, ast.Attribute, ast.List, ast.Tuple, ast.Subscript)):
+                    block[i] = ast.copy_location(ast.AugAssign(target=ast.Name(id=st.value.func.value.id, ctx=ast.Store()), op=ast.Add(), value=st.value.args[0]), st)
+                    total += 1
     if total:
         ast.fix_missing_locations(tree)
     return total
@@ -4398,7 +4429,7 @@ def normalise(tree, path, ref_locals, model=None):
         return {}
     _CUR_MODEL[0] = model
     out = {}
-    for name, fn in (('moved', lambda: pull_back_moved(tree, ref, path, model) + drop_moved_away(tree, ref, path, model)), ('match', lambda: lower_match(tree, ref)), ('eafp', lambda: undo_eafp_probes(tree, ref)), ('getnone', lambda: undo_get_none_tests(tree, ref, ref_locals)), ('enums', lambda: dissolve_enums(tree, ref)), ('namedtuples', lambda: dissolve_namedtuples(tree, ref, path, model)), ('regroup', lambda: regroup_indexed_reads(tree, ref, ref_locals)), ('dataclasses', lambda: undo_dataclasses(tree, ref)), ('dispatch', lambda: undo_dispatch_tables(tree, ref)),
+    for name, fn in (('moved', lambda: pull_back_moved(tree, ref, path, model) + drop_moved_away(tree, ref, path, model)), ('match', lambda: lower_match(tree, ref)), ('eafp', lambda: undo_eafp_probes(tree, ref)), ('getnone', lambda: undo_get_none_tests(tree, ref, ref_locals)), ('iadd', lambda: extend_as_iadd(tree, ref)), ('enums', lambda: dissolve_enums(tree, ref)), ('namedtuples', lambda: dissolve_namedtuples(tree, ref, path, model)), ('regroup', lambda: regroup_indexed_reads(tree, ref, ref_locals)), ('dataclasses', lambda: undo_dataclasses(tree, ref)), ('dispatch', lambda: undo_dispatch_tables(tree, ref)),
                      ('annotations', lambda: strip_annotations(tree, ref)), ('imports', lambda: normalise_imports(tree, ref)), ('attributes', lambda: rename_attributes(tree, ref)),
                      ('methods', lambda: rename_methods(tree, ref)), ('formats', lambda: restyle_formats(tree, ref)), ('closures', lambda: restore_closures(tree, ref) + restore_closures_from_objects(tree, ref)), ('self', lambda: restore_self(tree, ref)), ('tuples', lambda: split_tuple_bindings(tree, ref)), ('suppress', lambda: expand_suppress(tree, ref)), ('constants', lambda: _constants(tree, ref)),
                      ('boolindex', lambda: undo_bool_indexing(tree, ref)), ('observability', lambda: drop_observability(tree, ref)), ('params', lambda: default_new_params(tree, ref) + default_new_params(tree, ref)), ('initliterals', lambda: inline_init_literals(tree, ref)),
